@@ -121,6 +121,16 @@ func TestC19Store(t *testing.T) {
 		// whose type has been set, so it always is)
 		base.NilMaps = rapid.Bool().Draw(t, "nilmaps")
 		typ := gen.SoftTypeOf(&base)
+
+		// One time in four the type is the one a wrapped struct reports (as
+		// it comes, not a copy); structs of that Go type are added later on.
+		fromWrapper := rapid.IntRange(0, 3).Draw(t, "type-from-wrapper") == 0
+		if fromWrapper {
+			bs := base
+			bs.Struct = true
+			typ = gen.NewResource(&gen.BuildSchema([]gen.TypeSpec{bs}).Types[0]).GetType()
+		}
+
 		col := &jsonapi.SoftCollection{}
 		col.SetType(&typ)
 
@@ -180,6 +190,15 @@ func TestC19Store(t *testing.T) {
 				}
 
 				ts.Struct = rapid.Bool().Draw(t, "wrapped")
+
+				// (a struct of the Go type the collection's type was first
+				// taken from, whatever the collection's type has become)
+				if fromWrapper && rapid.IntRange(0, 2).Draw(t, "baseStruct") == 0 {
+					ts = base
+					ts.NilMaps = false
+					ts.Struct = true
+				}
+
 				var spec *gen.TypeSpec
 
 				if ts.Struct {
